@@ -22,7 +22,7 @@ func (c11) ID() string { return "C11" }
 func (c11) Rule() string {
 	return "API level: every sequence of <=5 (thorough: <=6) operations from {Set k v for 9 keys (2 ints, a float equal to one int, another float, string, bool, nil, arrays of length 1 and 3: 8 distinct under the order), Delete k, Append a 1/3/5-pair map, Rest, Range(0,2), Range(1,4)} " +
 		"applied to object.Map starting from the empty map, each rebuilt from scratch and compared after the last operation with a sorted-unique-key reference map on Len, Get of every universe key, Inspect, First/Rest iteration order and Equals with a freshly built equal map " +
-		"(crosses the 4-pair threshold both ways); random sequences of 50..300 operations over 20 keys with intermediate handles re-checked. Language level: random sequences rendered as grol source on one variable (literals in random pair order, m[k]=v, m.k=v, del, +, rest, slices) " +
+		"(crosses the 4-pair threshold both ways); random sequences of 50..300 operations over 20 keys with intermediate handles re-checked (first for keys that are repeated or out of order, whatever else happened to them). Language level: random sequences rendered as grol source on one variable (literals in random pair order, m[k]=v, m.k=v, del, +, rest, slices) " +
 		"observed through len, m[k], print, for kv = m, ==. non-trivial = sequence with >=2 operations that changed the map; distinct = distinct operation sequences."
 }
 func (c11) Exhaustive(string) bool { return true }
@@ -271,6 +271,13 @@ func (p c11) runOps(c *fw.Ctx, ops []c11Op, universe int, checkEvery bool) {
 			}
 		}
 		for _, h := range handles {
+			// whatever happened to it, a map value holds its keys once and in order
+			ks := object.Elements(h.m)
+			for j := 1; j < len(ks); j++ {
+				if object.Cmp(ks[j-1], ks[j]) >= 0 {
+					return "old-handle-corrupt", fmt.Sprintf("a map value kept from earlier is not a map any more: keys %s and %s at positions %d, %d of %s", ks[j-1].Inspect(), ks[j].Inspect(), j-1, j, clip(h.m.Inspect()))
+				}
+			}
 			if d := c11Observe(h.m, h.r, universe); d != "" {
 				return "old-handle", "a map value kept from earlier changed later: " + d
 			}
